@@ -320,9 +320,15 @@ impl<'a> Worker<'a> {
         let outs = self.run_pipeline(case);
         let names: Vec<String> = case.meta.get("names").and_then(|n| n.as_array()).map(|a| a.iter().filter_map(|x| x.as_str().map(String::from)).collect()).unwrap_or_default();
         let mut nontrivial = false;
+        // the files as the commands saw them: initial sandbox content + outputs of earlier steps
+        let mut seen_files: BTreeMap<String, Vec<u8>> = materialise(&case.inputs, &self.ctx.corpus).into_iter().filter(|(_, d)| !d.starts_with(crate::case::SYMLINK_MARKER)).map(|(p, d)| (p, d.as_ref().clone())).collect();
         for (i, o) in outs.iter().enumerate() {
             v.extend(term_violations(&self.ctx.cfg, o));
             v.extend(diag_violations(o));
+            v.extend(location_violations(o, &seen_files));
+            for (p, d) in &o.files {
+                seen_files.insert(p.clone(), d.clone());
+            }
             if o.exit == Some(1) {
                 nontrivial = true;
                 if let Some(name) = names.get(i) {
